@@ -17,6 +17,8 @@ def check(run):
         raise vp.ToolError("IcuCases produced too few cases")
     run.samples = [cases[3]["abs"], cases[-1]["abs"]]
     loadfam.replay_load(run, cases, "Trace_Icu", "Trace_Icu.cfg", key_of=_key, package="drv_build", per_case_timeout=60)
+    # the same directory loaded again after its content changed, in the same process: the options are those of the new content
+    loadfam.replay_reload(run, cases[::(5 if run.tier == "quick" else 1)], "Trace_Icu", "Trace_Icu.cfg", _key, package="drv_build", per_case_timeout=60)
     run.exhaustive = True
     run.assumptions = ["a use = (namespace, key position at depth 0/1/2, locale, feature); all single uses and pairs of uses (bounded per tier), with and without namespaces",
                        "the family -> DataKey table is taken from the public Options::into_data_keys, so the check is about which families are requested",
